@@ -52,6 +52,137 @@ theorem decByteString_ok {w : Wire} {o : Option Bytes} (h : decByteString w = .o
     (w = .prim .imm 22 ∧ o = none) ∨ ∃ hw b, w = .bstr hw b ∧ o = some b :=
   C05.payload_shape w o h
 
+/-! #### prefix-freeness of well-formed encodings, without the parser's limits -/
+
+def whw : Wire → HW
+  | .uint w _ | .nint w _ | .bstr w _ | .tstr w _ | .arr w _ | .map w _ | .tag w _ _
+  | .prim w _ => w
+
+def warg : Wire → Nat
+  | .uint _ n | .nint _ n | .prim _ n => n
+  | .bstr _ b | .tstr _ b => b.length
+  | .arr _ xs => xs.length
+  | .map _ kvs => kvs.length
+  | .tag _ t _ => t
+
+def wbody : Wire → Bytes
+  | .bstr _ b | .tstr _ b => b
+  | .arr _ xs => Wire.bytesList xs
+  | .map _ kvs => Wire.bytesPairs kvs
+  | .tag _ _ x => x.bytes
+  | _ => []
+
+theorem bytes_decomp (x : Wire) : x.bytes = headBytes x.major (whw x) (warg x) ++ wbody x := by
+  cases x <;> simp [Wire.bytes, Wire.major, whw, warg, wbody]
+
+theorem major_lt (x : Wire) : x.major < 8 := by cases x <;> simp [Wire.major]
+
+theorem wf_fits {x : Wire} (h : x.wf = true) : (whw x).fits (warg x) = true := by
+  cases x with
+  | prim w n => exact Wire.wf_prim h
+  | uint w n => simpa [Wire.wf, whw, warg] using h
+  | nint w n => simpa [Wire.wf, whw, warg] using h
+  | bstr w b => simpa [Wire.wf, whw, warg] using h
+  | tstr w b => simpa [Wire.wf, whw, warg] using h
+  | arr w xs => simp only [Wire.wf, Bool.and_eq_true] at h; exact h.1
+  | map w xs => simp only [Wire.wf, Bool.and_eq_true] at h; exact h.1
+  | tag w t x => simp only [Wire.wf, Bool.and_eq_true] at h; exact h.1
+
+theorem head_split {x y : Wire} {r r' : Bytes} (hx : x.wf = true) (hy : y.wf = true)
+    (h : x.bytes ++ r = y.bytes ++ r') :
+    x.major = y.major ∧ whw x = whw y ∧ warg x = warg y ∧ wbody x ++ r = wbody y ++ r' := by
+  rw [bytes_decomp x, bytes_decomp y, List.append_assoc, List.append_assoc] at h
+  have h1 := parseHead_headBytes x.major (warg x) (whw x) (wbody x ++ r) (major_lt x) (wf_fits hx)
+  rw [h, parseHead_headBytes y.major (warg y) (whw y) (wbody y ++ r') (major_lt y) (wf_fits hy)] at h1
+  simp only [Option.some.injEq, Prod.mk.injEq] at h1
+  exact ⟨h1.1.symm, h1.2.1.symm, h1.2.2.1.symm, h1.2.2.2.symm⟩
+
+mutual
+/-- prefix-freeness of well-formed encodings, without the parser's limits -/
+theorem bytes_append_inj : ∀ (x y : Wire) (r r' : Bytes), x.wf = true → y.wf = true →
+    x.bytes ++ r = y.bytes ++ r' → x = y ∧ r = r'
+  | .uint w n, y, r, r', hx, hy, h => by
+    obtain ⟨hm, hw, ha, hb⟩ := head_split hx hy h
+    cases y <;> simp only [Wire.major, reduceCtorEq] at hm <;> try omega
+    simp only [whw, warg, wbody, List.nil_append] at hw ha hb
+    subst hw ha hb; exact ⟨rfl, rfl⟩
+  | .nint w n, y, r, r', hx, hy, h => by
+    obtain ⟨hm, hw, ha, hb⟩ := head_split hx hy h
+    cases y <;> simp only [Wire.major, reduceCtorEq] at hm <;> try omega
+    simp only [whw, warg, wbody, List.nil_append] at hw ha hb
+    subst hw ha hb; exact ⟨rfl, rfl⟩
+  | .prim w n, y, r, r', hx, hy, h => by
+    obtain ⟨hm, hw, ha, hb⟩ := head_split hx hy h
+    cases y <;> simp only [Wire.major, reduceCtorEq] at hm <;> try omega
+    simp only [whw, warg, wbody, List.nil_append] at hw ha hb
+    subst hw ha hb; exact ⟨rfl, rfl⟩
+  | .bstr w b, y, r, r', hx, hy, h => by
+    obtain ⟨hm, hw, ha, hb⟩ := head_split hx hy h
+    cases y <;> simp only [Wire.major, reduceCtorEq] at hm <;> try omega
+    simp only [whw, warg, wbody] at hw ha hb
+    obtain ⟨rfl, rfl⟩ := List.append_inj hb ha
+    subst hw; exact ⟨rfl, rfl⟩
+  | .tstr w b, y, r, r', hx, hy, h => by
+    obtain ⟨hm, hw, ha, hb⟩ := head_split hx hy h
+    cases y <;> simp only [Wire.major, reduceCtorEq] at hm <;> try omega
+    simp only [whw, warg, wbody] at hw ha hb
+    obtain ⟨rfl, rfl⟩ := List.append_inj hb ha
+    subst hw; exact ⟨rfl, rfl⟩
+  | .tag w t x, y, r, r', hx, hy, h => by
+    obtain ⟨hm, hw, ha, hb⟩ := head_split hx hy h
+    cases y <;> simp only [Wire.major, reduceCtorEq] at hm <;> try omega
+    rename_i w' t' x'
+    simp only [whw, warg, wbody] at hw ha hb
+    simp only [Wire.wf, Bool.and_eq_true] at hx hy
+    obtain ⟨rfl, rfl⟩ := bytes_append_inj x x' r r' hx.2 hy.2 hb
+    subst hw ha; exact ⟨rfl, rfl⟩
+  | .arr w xs, y, r, r', hx, hy, h => by
+    obtain ⟨hm, hw, ha, hb⟩ := head_split hx hy h
+    cases y <;> simp only [Wire.major, reduceCtorEq] at hm <;> try omega
+    rename_i w' xs'
+    simp only [whw, warg, wbody] at hw ha hb
+    simp only [Wire.wf, Bool.and_eq_true] at hx hy
+    obtain ⟨rfl, rfl⟩ := bytesList_append_inj xs xs' r r' hx.2 hy.2 ha hb
+    subst hw; exact ⟨rfl, rfl⟩
+  | .map w xs, y, r, r', hx, hy, h => by
+    obtain ⟨hm, hw, ha, hb⟩ := head_split hx hy h
+    cases y <;> simp only [Wire.major, reduceCtorEq] at hm <;> try omega
+    rename_i w' xs'
+    simp only [whw, warg, wbody] at hw ha hb
+    simp only [Wire.wf, Bool.and_eq_true] at hx hy
+    obtain ⟨rfl, rfl⟩ := bytesPairs_append_inj xs xs' r r' hx.2 hy.2 ha hb
+    subst hw; exact ⟨rfl, rfl⟩
+theorem bytesList_append_inj : ∀ (xs ys : List Wire) (r r' : Bytes), Wire.wfList xs = true →
+    Wire.wfList ys = true → xs.length = ys.length →
+    Wire.bytesList xs ++ r = Wire.bytesList ys ++ r' → xs = ys ∧ r = r'
+  | [], [], r, r', _, _, _, h => by simpa [Wire.bytesList] using h
+  | [], _ :: _, _, _, _, _, hl, _ => by simp at hl
+  | _ :: _, [], _, _, _, _, hl, _ => by simp at hl
+  | x :: xs, y :: ys, r, r', hx, hy, hl, h => by
+    simp only [Wire.wfList, Bool.and_eq_true] at hx hy
+    simp only [Wire.bytesList, List.append_assoc] at h
+    obtain ⟨rfl, h'⟩ := bytes_append_inj x y _ _ hx.1 hy.1 h
+    obtain ⟨rfl, rfl⟩ := bytesList_append_inj xs ys r r' hx.2 hy.2 (by simpa using hl) h'
+    exact ⟨rfl, rfl⟩
+theorem bytesPairs_append_inj : ∀ (xs ys : List (Wire × Wire)) (r r' : Bytes),
+    Wire.wfPairs xs = true → Wire.wfPairs ys = true → xs.length = ys.length →
+    Wire.bytesPairs xs ++ r = Wire.bytesPairs ys ++ r' → xs = ys ∧ r = r'
+  | [], [], r, r', _, _, _, h => by simpa [Wire.bytesPairs] using h
+  | [], _ :: _, _, _, _, _, hl, _ => by simp at hl
+  | _ :: _, [], _, _, _, _, hl, _ => by simp at hl
+  | (k, v) :: xs, (k', v') :: ys, r, r', hx, hy, hl, h => by
+    simp only [Wire.wfPairs, Bool.and_eq_true] at hx hy
+    simp only [Wire.bytesPairs, List.append_assoc] at h
+    obtain ⟨rfl, h1⟩ := bytes_append_inj k k' _ _ hx.1.1 hy.1.1 h
+    obtain ⟨rfl, h2⟩ := bytes_append_inj v v' _ _ hx.1.2 hy.1.2 h1
+    obtain ⟨rfl, rfl⟩ := bytesPairs_append_inj xs ys r r' hx.2 hy.2 (by simpa using hl) h2
+    exact ⟨rfl, rfl⟩
+end
+
+theorem bytes_inj {x y : Wire} (hx : x.wf = true) (hy : y.wf = true) (h : x.bytes = y.bytes) :
+    x = y :=
+  (bytes_append_inj x y [] [] hx hy (by simpa using h)).1
+
 end Reencode
 
 /-! ### C05 -/
@@ -413,6 +544,17 @@ theorem marshal_tree_bytes (p u : Wire) (pay sig : Option Bytes) (hz : blen sig 
   have h84 : headBytes 4 .imm 4 = [0x84] := by decide
   simp [Wire.bytes, Wire.bytesList, h84]
 
+/-- core of 2: in terms of the tree the decoder saw -/
+theorem marshal_identity_of_shortest {tagged : Bool} {m : Sign1Msg} {p u pl sg : Wire}
+    (hpl : decByteString pl = .ok m.payload) (hsg : decByteString sg = .ok m.sig)
+    (hz : blen m.sig ≠ 0) (hh : decHeaders p u = .ok m.h)
+    (hm : GoVal.modelledPairs m.h.p = true ∧ GoVal.modelledPairs m.h.u = true)
+    (hspl : pl = .prim .imm 22 ∨ ∃ c, pl = .bstr (HW.shortest c.length) c)
+    (hssg : sg = .prim .imm 22 ∨ ∃ c, sg = .bstr (HW.shortest c.length) c) :
+    Sign1.marshal tagged m = .ok (pre tagged ++ (Wire.arr .imm [p, u, pl, sg]).bytes) := by
+  rw [marshal_of_decoded hh hz hm, marshal_tree_bytes p u m.payload m.sig hz,
+    ← shortest_eq_shortItem hspl hpl, ← shortest_eq_shortItem hssg hsg]
+
 /-- 1. decoding then encoding reproduces BOTH header buckets byte for byte (`p.bytes`,
     `u.bytes` are the input's own sub-slices); the array head is the immediate head 0x84 the
     decoder required; the output differs from the input at most in the heads of payload and
@@ -431,46 +573,41 @@ theorem reencode_sign1 (tagged : Bool) (b : Bytes) (m : Sign1Msg)
       ((m.payload = none ∧ pl.bytes = [0xf6]) ∨
         ∃ (w : HW) (c : Bytes), m.payload = some c ∧ pl.bytes = headBytes 2 w c.length ++ c) ∧
       (∃ (w' : HW) (s : Bytes), m.sig = some s ∧ s ≠ [] ∧
-        sg.bytes = headBytes 2 w' s.length ++ s) := by
+        sg.bytes = headBytes 2 w' s.length ++ s) ∧
+      ((pl = .prim .imm 22 ∨ ∃ c, pl = .bstr (HW.shortest c.length) c) →
+       (sg = .prim .imm 22 ∨ ∃ c, sg = .bstr (HW.shortest c.length) c) →
+       Sign1.marshal tagged m = .ok b) := by
   obtain ⟨p, u, pl, sg, hb, -, hwf, hlim, hpl, hsg, hz, hh⟩ := sign1_envelope_full hd
   obtain ⟨-, -, -, hrp, hru⟩ := decHeaders_ok hh
   refine ⟨.imm, p, u, pl, sg, hb, marshal_of_decoded hh hz hm, rfl, hwf, hlim, hrp, hru,
-    item_bytes hpl, ?_⟩
-  rcases item_bytes hsg with ⟨hn, -⟩ | ⟨w', s, hs, hbs⟩
-  · simp [hn, blen] at hz
-  · refine ⟨w', s, hs, ?_, hbs⟩
-    rintro rfl
-    simp [hs, blen] at hz
-
-/-- core of 2: in terms of the tree the decoder saw -/
-theorem marshal_identity_of_shortest {tagged : Bool} {m : Sign1Msg} {p u pl sg : Wire}
-    (hpl : decByteString pl = .ok m.payload) (hsg : decByteString sg = .ok m.sig)
-    (hz : blen m.sig ≠ 0) (hh : decHeaders p u = .ok m.h)
-    (hm : GoVal.modelledPairs m.h.p = true ∧ GoVal.modelledPairs m.h.u = true)
-    (hspl : pl = .prim .imm 22 ∨ ∃ c, pl = .bstr (HW.shortest c.length) c)
-    (hssg : sg = .prim .imm 22 ∨ ∃ c, sg = .bstr (HW.shortest c.length) c) :
-    Sign1.marshal tagged m = .ok (pre tagged ++ (Wire.arr .imm [p, u, pl, sg]).bytes) := by
-  rw [marshal_of_decoded hh hz hm, marshal_tree_bytes p u m.payload m.sig hz,
-    ← shortest_eq_shortItem hspl hpl, ← shortest_eq_shortItem hssg hsg]
+    item_bytes hpl, ?_, ?_⟩
+  · rcases item_bytes hsg with ⟨hn, -⟩ | ⟨w', s, hs, hbs⟩
+    · simp [hn, blen] at hz
+    · refine ⟨w', s, hs, ?_, hbs⟩
+      rintro rfl
+      simp [hs, blen] at hz
+  · intro hspl hssg
+    rw [hb]
+    exact marshal_identity_of_shortest hpl hsg hz hh hm hspl hssg
 
 /-- 2. a deterministically encoded input is reproduced identically: if the payload and signature
     items of the input carry shortest heads, encoding the decoded message gives back the input.
-    Nothing is assumed about the header buckets — they are copied verbatim.  The tree is
-    identified as *the* parse of the input by well-formedness and the parser's limits. -/
+    Nothing is assumed about the header buckets — they are copied verbatim.  Well-formedness
+    (`Wire.wf`: every head argument fits its width) identifies the tree as *the* parse of the
+    input (`Reencode.bytes_inj`). -/
 theorem reencode_det_identity (tagged : Bool) (b : Bytes) (m : Sign1Msg)
     (hd : Sign1.unmarshal tagged b = .ok m)
     (hm : GoVal.modelledPairs m.h.p = true ∧ GoVal.modelledPairs m.h.u = true)
     (hw : HW) (p u pl sg : Wire)
     (hb : b = (if tagged then [0xd2] else []) ++ (Wire.arr hw [p, u, pl, sg]).bytes)
     (hwf : (Wire.arr hw [p, u, pl, sg]).wf = true)
-    (hlim : (Wire.arr hw [p, u, pl, sg]).inLimits false 0 = true)
     (hspl : pl = .prim .imm 22 ∨ ∃ c, pl = .bstr (HW.shortest c.length) c)
     (hssg : sg = .prim .imm 22 ∨ ∃ c, sg = .bstr (HW.shortest c.length) c) :
     Sign1.marshal tagged m = .ok b := by
   obtain ⟨p0, u0, pl0, sg0, hb0, -, hwf0, hlim0, hpl, hsg, hz, hh⟩ := sign1_envelope_full hd
   have hbytes : (Wire.arr hw [p, u, pl, sg]).bytes = (Wire.arr .imm [p0, u0, pl0, sg0]).bytes :=
     List.append_cancel_left (hb.symm.trans hb0)
-  have heq := wire_bytes_inj hwf hwf0 hlim hlim0 hbytes
+  have heq := Reencode.bytes_inj hwf hwf0 hbytes
   simp only [Wire.arr.injEq, List.cons.injEq, and_true] at heq
   obtain ⟨rfl, rfl, rfl, rfl, rfl⟩ := heq
   rw [hb]
@@ -487,8 +624,7 @@ theorem reencode_det_identity_parsed (tagged : Bool) (b arr : Bytes) (m : Sign1M
     (hssg : sg = .prim .imm 22 ∨ ∃ c, sg = .bstr (HW.shortest c.length) c) :
     Sign1.marshal tagged m = .ok b := by
   obtain ⟨hbytes, hwf, hlim⟩ := parseTop_sound hpt
-  exact reencode_det_identity tagged b m hd hm hw p u pl sg (by rw [hb, hbytes]) hwf hlim
-    hspl hssg
+  exact reencode_det_identity tagged b m hd hm hw p u pl sg (by rw [hb, hbytes]) hwf hspl hssg
 
 /-- core of 3: the re-encoded bytes decode to the same value -/
 theorem unmarshal_marshal_tree {tagged : Bool} {m : Sign1Msg} {p u pl sg : Wire}
@@ -544,5 +680,235 @@ theorem reencode_roundtrip (tagged : Bool) (b : Bytes) (m : Sign1Msg)
   simp only [Wire.bytes, Wire.bytesList, headBytes, List.length_append, List.length_cons,
     List.length_nil]
   omega
+
+/-- a successful encoding implies both buckets are in the modelled region (otherwise the model
+    answers `unmodelled`), so `hm` is implied by `he` in `reencode_fixpoint` -/
+theorem hdrs_modelled_of_marshal_ok {h : Hdrs} {x : Bytes × Bytes} (he : h.marshal = .ok x) :
+    GoVal.modelledPairs h.p = true ∧ GoVal.modelledPairs h.u = true := by
+  unfold Hdrs.marshal at he
+  split at he
+  · cases he
+  · cases hp : marshalProtected h with
+    | ok pb =>
+      cases hu : marshalUnprotected h with
+      | ok ub =>
+        constructor
+        · cases hmp : GoVal.modelledPairs h.p with
+          | true => rfl
+          | false => simp [marshalProtected, hmp] at hp
+        · cases hmu : GoVal.modelledPairs h.u with
+          | true => rfl
+          | false => simp [marshalUnprotected, hmu] at hu
+      | err e => simp [hp, hu, bind, Out.bind] at he
+      | panic => simp [hp, hu, bind, Out.bind] at he
+      | unmodelled => simp [hp, hu, bind, Out.bind] at he
+    | err e => simp [hp, bind, Out.bind] at he
+    | panic => simp [hp, bind, Out.bind] at he
+    | unmodelled => simp [hp, bind, Out.bind] at he
+
+theorem modelled_of_marshal_ok {tagged : Bool} {m : Sign1Msg} {b1 : Bytes}
+    (he : Sign1.marshal tagged m = .ok b1) :
+    GoVal.modelledPairs m.h.p = true ∧ GoVal.modelledPairs m.h.u = true := by
+  unfold Sign1.marshal Sign1.content at he
+  split at he
+  · cases he
+  · cases hh : m.h.marshal with
+    | ok x => exact hdrs_modelled_of_marshal_ok hh
+    | err e => simp [hh, bind, Out.bind] at he
+    | panic => simp [hh, bind, Out.bind] at he
+    | unmodelled => simp [hh, bind, Out.bind] at he
+
+/-- one decode/encode cycle -/
+def cycle (tagged : Bool) (b : Bytes) : Out Bytes :=
+  Sign1.unmarshal tagged b >>= Sign1.marshal tagged
+
+/-- 3''. the cycle is idempotent — no modelling hypothesis needed (a successful cycle implies
+    it), hence by induction any number of cycles gives the bytes of the first -/
+theorem cycle_idempotent (tagged : Bool) (b b1 : Bytes) (h : cycle tagged b = .ok b1) :
+    cycle tagged b1 = .ok b1 := by
+  unfold cycle at h
+  cases hd : Sign1.unmarshal tagged b with
+  | ok m =>
+    simp only [hd, Out.bind_ok] at h
+    obtain ⟨m1, h1, rfl, h2⟩ := reencode_fixpoint tagged b b1 m hd (modelled_of_marshal_ok h) h
+    simp [cycle, h1, h2]
+  | err e => simp [hd] at h
+  | panic => simp [hd] at h
+  | unmodelled => simp [hd] at h
+
+/-- `n` decode/encode cycles in sequence -/
+def cycles (tagged : Bool) : Nat → Bytes → Out Bytes
+  | 0, b => .ok b
+  | n + 1, b => cycle tagged b >>= cycles tagged n
+
+/-- any number (≥ 1) of cycles returns the bytes of the first -/
+theorem cycles_stable (tagged : Bool) (b b1 : Bytes) (h : cycle tagged b = .ok b1) :
+    ∀ n : Nat, cycles tagged (n + 1) b = .ok b1 := by
+  have key : ∀ n : Nat, cycles tagged n b1 = .ok b1 := by
+    intro n
+    induction n with
+    | zero => rfl
+    | succ k ih => simp only [cycles, cycle_idempotent tagged b b1 h, Out.bind_ok, ih]
+  intro n
+  simp only [cycles, h, Out.bind_ok, key n]
+
+/-! #### COSE_Signature / countersignature (3-array, prefix 0x83) -/
+
+theorem decSigFields_of {p u sg : Wire} {sig : Option Bytes} {pm um : GoMap}
+    (hsg : decByteString sg = .ok sig) (hz : blen sig ≠ 0) (hp : decProtected p = .ok pm)
+    (hu : decUnprot u = .ok um) (hiv : ensureIV pm um = true) :
+    decSigFields [p, u, sg] = .ok (.csig (some p.bytes) pm (some u.bytes) um sig) := by
+  simp [decSigFields, hsg, hz, hp, hu, hiv]
+
+theorem signature_unmarshal_of {r : Bytes} {hw : HW} {xs : List Wire} {v : GoVal} {s : SigV}
+    (hpt : parseTop false (0x83 :: r) = some (.arr hw xs)) (hf : decSigFields xs = .ok v)
+    (hs : sigOfVal v = some s) : Signature.unmarshal (0x83 :: r) = .ok s := by
+  simp [Signature.unmarshal, hpt, hf, hs]
+
+theorem signature_marshal_of_decoded {s : SigV} {p u : Wire} (hrp : s.h.rawP = some p.bytes)
+    (hru : s.h.rawU = some u.bytes) (hiv : ensureIV s.h.p s.h.u = true) (hz : blen s.sig ≠ 0)
+    (hm : GoVal.modelledPairs s.h.p = true ∧ GoVal.modelledPairs s.h.u = true) :
+    Signature.marshal s = .ok (0x83 :: (p.bytes ++ (u.bytes ++ encBstr (s.sig.getD [])))) := by
+  have := hdrs_marshal_verbatim hrp hru hiv hm
+  simp [Signature.marshal, hz, this, bind, Out.bind]
+
+theorem signature_tree_bytes (p u : Wire) (sig : Option Bytes) (hz : blen sig ≠ 0) :
+    (0x83 :: (p.bytes ++ (u.bytes ++ encBstr (sig.getD [])))) =
+    (Wire.arr .imm [p, u, shortItem sig]).bytes := by
+  obtain ⟨s, -, hs⟩ := sig_some hz
+  rw [hs]
+  have h83 : headBytes 4 .imm 3 = [0x83] := by decide
+  simp [Wire.bytes, Wire.bytesList, h83]
+
+/-- 4a. decoding then encoding a COSE_Signature reproduces both header buckets byte for byte
+    and differs from the input at most in the head of the signature byte string -/
+theorem reencode_signature (b : Bytes) (s : SigV) (hd : Signature.unmarshal b = .ok s)
+    (hm : GoVal.modelledPairs s.h.p = true ∧ GoVal.modelledPairs s.h.u = true) :
+    ∃ (p u sg : Wire),
+      b = (Wire.arr .imm [p, u, sg]).bytes ∧
+      Signature.marshal s = .ok (0x83 :: (p.bytes ++ (u.bytes ++ encBstr (s.sig.getD [])))) ∧
+      (Wire.arr .imm [p, u, sg]).wf = true ∧
+      (Wire.arr .imm [p, u, sg]).inLimits false 0 = true ∧
+      s.h.rawP = some p.bytes ∧ s.h.rawU = some u.bytes ∧
+      (∃ (w' : HW) (c : Bytes), s.sig = some c ∧ c ≠ [] ∧
+        sg.bytes = headBytes 2 w' c.length ++ c) := by
+  obtain ⟨p, u, sg, -, hb, hwf, hlim, -, hsg, hz, hp, hu, hiv, hrp, hru⟩ :=
+    C05.signature_accept_envelope_full b s hd
+  refine ⟨p, u, sg, hb, signature_marshal_of_decoded hrp hru hiv hz hm, hwf, hlim, hrp, hru, ?_⟩
+  rcases item_bytes hsg with ⟨hn, -⟩ | ⟨w', c, hs, hbs⟩
+  · simp [hn, blen] at hz
+  · refine ⟨w', c, hs, ?_, hbs⟩
+    rintro rfl
+    simp [hs, blen] at hz
+
+/-- 4b. a COSE_Signature whose signature byte string carries the shortest head is reproduced
+    identically (the header buckets are copied verbatim whatever their encoding) -/
+theorem reencode_signature_det_identity (b : Bytes) (s : SigV)
+    (hd : Signature.unmarshal b = .ok s)
+    (hm : GoVal.modelledPairs s.h.p = true ∧ GoVal.modelledPairs s.h.u = true)
+    (hw : HW) (p u sg : Wire) (hb : b = (Wire.arr hw [p, u, sg]).bytes)
+    (hwf : (Wire.arr hw [p, u, sg]).wf = true)
+    (hssg : sg = .prim .imm 22 ∨ ∃ c, sg = .bstr (HW.shortest c.length) c) :
+    Signature.marshal s = .ok b := by
+  obtain ⟨p0, u0, sg0, -, hb0, hwf0, hlim0, -, hsg, hz, hp, hu, hiv, hrp, hru⟩ :=
+    C05.signature_accept_envelope_full b s hd
+  have heq := Reencode.bytes_inj hwf hwf0 (hb.symm.trans hb0)
+  simp only [Wire.arr.injEq, List.cons.injEq, and_true] at heq
+  obtain ⟨rfl, rfl, rfl, rfl⟩ := heq
+  rw [signature_marshal_of_decoded hrp hru hiv hz hm, signature_tree_bytes p u s.sig hz,
+    ← shortest_eq_shortItem hssg hsg, hb]
+
+/-- 4b'. the same, the tree being given as the parser's result on the input -/
+theorem reencode_signature_det_identity_parsed (b : Bytes) (s : SigV)
+    (hd : Signature.unmarshal b = .ok s)
+    (hm : GoVal.modelledPairs s.h.p = true ∧ GoVal.modelledPairs s.h.u = true)
+    (hw : HW) (p u sg : Wire) (hpt : parseTop false b = some (Wire.arr hw [p, u, sg]))
+    (hssg : sg = .prim .imm 22 ∨ ∃ c, sg = .bstr (HW.shortest c.length) c) :
+    Signature.marshal s = .ok b := by
+  obtain ⟨hbytes, hwf, hlim⟩ := parseTop_sound hpt
+  exact reencode_signature_det_identity b s hd hm hw p u sg hbytes hwf hssg
+
+/-- core of 4c: the re-encoded bytes decode to the same value -/
+theorem signature_unmarshal_marshal_tree {s : SigV} {p u sg : Wire}
+    (hwf : (Wire.arr .imm [p, u, sg]).wf = true)
+    (hlim : (Wire.arr .imm [p, u, sg]).inLimits false 0 = true)
+    (hsg : decByteString sg = .ok s.sig) (hz : blen s.sig ≠ 0)
+    (hp : decProtected p = .ok s.h.p) (hu : decUnprot u = .ok s.h.u)
+    (hiv : ensureIV s.h.p s.h.u = true)
+    (hrp : s.h.rawP = some p.bytes) (hru : s.h.rawU = some u.bytes) :
+    Signature.unmarshal (Wire.arr .imm [p, u, shortItem s.sig]).bytes = .ok s := by
+  have hwf' : (Wire.arr .imm [p, u, shortItem s.sig]).wf = true := by
+    simp only [Wire.wf, Wire.wfList, Bool.and_eq_true] at hwf ⊢
+    exact ⟨hwf.1, hwf.2.1, hwf.2.2.1, shortItem_wf hwf.2.2.2.1 hsg, trivial⟩
+  have hlim' : (Wire.arr .imm [p, u, shortItem s.sig]).inLimits false 0 = true := by
+    simp only [Wire.inLimits, Wire.inLimitsList, Bool.and_eq_true] at hlim ⊢
+    exact ⟨hlim.1, hlim.2.1, hlim.2.2.1, shortItem_inLimits _ _, trivial⟩
+  have hpt := parseTop_complete hwf' hlim'
+  rw [← signature_tree_bytes p u s.sig hz] at hpt ⊢
+  refine signature_unmarshal_of hpt (decSigFields_of (shortItem_dec _) hz hp hu hiv) ?_
+  obtain ⟨⟨rp, pm, ru, um⟩, sig⟩ := s
+  simp only at hrp hru
+  subst hrp hru
+  rfl
+
+/-- 4c. decode/encode cycles of a COSE_Signature are a fixpoint after the first: the re-encoded
+    bytes decode to the SAME value and that value encodes to the same bytes -/
+theorem reencode_signature_fixpoint (b b1 : Bytes) (s : SigV)
+    (hd : Signature.unmarshal b = .ok s)
+    (hm : GoVal.modelledPairs s.h.p = true ∧ GoVal.modelledPairs s.h.u = true)
+    (he : Signature.marshal s = .ok b1) :
+    ∃ s1, Signature.unmarshal b1 = .ok s1 ∧ s1 = s ∧ Signature.marshal s1 = .ok b1 := by
+  obtain ⟨p, u, sg, -, -, hwf, hlim, -, hsg, hz, hp, hu, hiv, hrp, hru⟩ :=
+    C05.signature_accept_envelope_full b s hd
+  have h1 := signature_marshal_of_decoded hrp hru hiv hz hm
+  rw [he, signature_tree_bytes p u s.sig hz] at h1
+  cases h1
+  exact ⟨s, signature_unmarshal_marshal_tree hwf hlim hsg hz hp hu hiv hrp hru, rfl, he⟩
+
+/-- 4c'. encoding a decoded COSE_Signature always succeeds, round-trips, and never lengthens -/
+theorem reencode_signature_roundtrip (b : Bytes) (s : SigV)
+    (hd : Signature.unmarshal b = .ok s)
+    (hm : GoVal.modelledPairs s.h.p = true ∧ GoVal.modelledPairs s.h.u = true) :
+    ∃ b1, Signature.marshal s = .ok b1 ∧ Signature.unmarshal b1 = .ok s ∧
+      b1.length ≤ b.length := by
+  obtain ⟨p, u, sg, -, hb, hwf, hlim, -, hsg, hz, hp, hu, hiv, hrp, hru⟩ :=
+    C05.signature_accept_envelope_full b s hd
+  have h1 := signature_marshal_of_decoded hrp hru hiv hz hm
+  rw [signature_tree_bytes p u s.sig hz] at h1
+  refine ⟨_, h1, signature_unmarshal_marshal_tree hwf hlim hsg hz hp hu hiv hrp hru, ?_⟩
+  simp only [Wire.wf, Wire.wfList, Bool.and_eq_true] at hwf
+  have l2 := shortItem_length_le hwf.2.2.2.1 hsg
+  rw [hb]
+  simp only [Wire.bytes, Wire.bytesList, headBytes, List.length_append, List.length_cons,
+    List.length_nil]
+  omega
+
+theorem signature_modelled_of_marshal_ok {s : SigV} {b1 : Bytes}
+    (he : Signature.marshal s = .ok b1) :
+    GoVal.modelledPairs s.h.p = true ∧ GoVal.modelledPairs s.h.u = true := by
+  unfold Signature.marshal at he
+  split at he
+  · cases he
+  · cases hh : s.h.marshal with
+    | ok x => exact hdrs_modelled_of_marshal_ok hh
+    | err e => simp [hh, bind, Out.bind] at he
+    | panic => simp [hh, bind, Out.bind] at he
+    | unmodelled => simp [hh, bind, Out.bind] at he
+
+/-- one decode/encode cycle of a COSE_Signature -/
+def sigCycle (b : Bytes) : Out Bytes := Signature.unmarshal b >>= Signature.marshal
+
+/-- 4c''. the COSE_Signature cycle is idempotent (no modelling hypothesis needed) -/
+theorem sigCycle_idempotent (b b1 : Bytes) (h : sigCycle b = .ok b1) : sigCycle b1 = .ok b1 := by
+  unfold sigCycle at h
+  cases hd : Signature.unmarshal b with
+  | ok s =>
+    simp only [hd, Out.bind_ok] at h
+    obtain ⟨s1, h1, rfl, h2⟩ :=
+      reencode_signature_fixpoint b b1 s hd (signature_modelled_of_marshal_ok h) h
+    simp [sigCycle, h1, h2]
+  | err e => simp [hd] at h
+  | panic => simp [hd] at h
+  | unmodelled => simp [hd] at h
 
 end C09
